@@ -76,7 +76,7 @@ structure Decrypted3 where
   compression : Bool
   inner : InnerCipher
   rounds : Nat
-  innerKey : Bytes          -- SHA-256 of the protected stream key
+  innerKey : Bytes          -- the protected stream key as stored (header field 8)
   xml : Bytes
   deriving DecidableEq, Repr
 
@@ -109,7 +109,7 @@ def decrypt3 (P : Prims) (data : Bytes) (composite : Option Bytes) : Outcome Dec
     match acc.cipher, acc.compression, acc.masterSeed, acc.transformSeed, acc.rounds, acc.iv, acc.streamKey,
           acc.streamStart, acc.inner with
     | some c, some z, some ms, some ts, some rounds, some iv, some sk, some ss, some ic =>
-      let innerKey := P.sha256 sk
+      let innerKey := sk            -- the stored stream key; `InnerCipherConfig::get_cipher` derives the cipher key from it
       let payloadEnc := data.drop bodyStart
       match composite with
       | none => .err .key
